@@ -9,7 +9,7 @@ TECH = {
  "C04": "static analysis: typestate/pairing of ContextVar set/reset by token provenance and must-pass-through to every exit (incl. exceptional and generator-close edges)",
  "C05": "static analysis: ownership (sole-carrier) analysis of the context variable; type-directed scan of stores into process-global state",
  "C06": "static analysis: encoder/decoder sibling agreement by constant folding (and regex AST), atomic test-and-set idiom recognition on the CFG, value provenance",
- "C07": "static analysis: interprocedural exception-containment (effect) analysis, least fixed point over a typed call graph; failure-recursion cut analysis",
+ "C07": "static analysis: interprocedural exception-containment (effect) analysis, least fixed point over a typed call graph; failure-recursion cut analysis; key-domain analysis of keyword splats",
  "C08": "static analysis: CFG path rules on the fan-out/report loops (loop totality, exactly-once counting), guard/constant agreement by folding, who-may-call",
  "C09": "static analysis: control-dependence slice of the completion statement, must-pass-through and edge dominance on the parser's CFGs",
  "C10": "static analysis: exactly-once/ordering path rules with method-value alias resolution, value provenance of the written line, sibling agreement of serializer definitions",
